@@ -6,7 +6,16 @@ import contextlib, importlib
 def patched(*specs):
     """specs: (module_or_name, {global_name: replacement})"""
     saved = []
+    trips = []
     try:
+        # a `random` tripwire also has to cover `rng=random` DEFAULT ARGUMENTS (bound to the real module at definition time)
+        from . import rngf as _rngf
+        for mod, repl in specs:
+            v = repl.get('random') if isinstance(repl, dict) else None
+            if isinstance(v, _rngf.Tripwire) and not trips:
+                cm = _rngf.default_rng_tripwire(v)
+                cm.__enter__()
+                trips.append(cm)
         for mod, repl in specs:
             if isinstance(mod, str):
                 mod = importlib.import_module(mod)
@@ -15,6 +24,8 @@ def patched(*specs):
                 mod.__dict__[k] = v
         yield
     finally:
+        for cm in trips:
+            cm.__exit__(None, None, None)
         for mod, k, old in reversed(saved):
             if old is _MISSING:
                 mod.__dict__.pop(k, None)
